@@ -175,9 +175,29 @@ def canon(t, pc_name, extra=None):
 
 
 def loop_counter_name(facts, fn_path):
-    """name of the variable compared in the while-condition `<v> * INSN_SIZE < <len>` of the loop
-    that contains the opcode match (the instruction index)"""
+    """(name, id) of the instruction index of an instruction-at-a-time loop: the variable passed as the
+    index to the decode call `get_insn(prog, <v>)` whose result is the scrutinee base of the opcode
+    match; failing that, the variable compared in a while-condition `<v> * INSN_SIZE < <len>`"""
     fn = facts.fns[fn_path]
+    try:
+        ms = opcode_matches(fn, 100)
+    except Exception:
+        ms = []
+    for m in ms:
+        sc = strip(m.node["scrut"])
+        base = strip(sc["e"]) if sc.get("k") == "field" else sc
+        if base.get("k") not in ("var", "upvar"):
+            continue
+        for n in walk(fn["thir"]["body"]):
+            if n.get("k") != "block":
+                continue
+            for st in n["stmts"]:
+                if st["k"] == "let" and st.get("init") and st["pat"].get("k") == "bind" and st["pat"].get("id") == base["id"]:
+                    i = strip(st["init"])
+                    if i.get("k") == "call" and len(i.get("args", [])) == 2:
+                        a = strip(i["args"][1])
+                        if a.get("k") in ("var", "upvar"):
+                            return a["name"], a["id"]
     for n in walk(fn["thir"]["body"]):
         if n.get("k") == "loop":
             body = strip(n["body"])
